@@ -12,7 +12,7 @@ RULE = ("eps-NFA/NFA/DFA cases over regex-safe token symbols ('a','b','ab','x_1'
         "Non-trivial: >=2 transitions and a non-empty, non-universal language; distinct = canonical case hash.")
 ASSUMPTIONS = ["symbols are plain tokens (no metacharacter, no blank), as the property's quantifier says"]
 TIERS = {
-    "quick": {"workers": 4, "random": 1200},
+    "quick": {"workers": 8, "random": 1500},
     "thorough": {"workers": 16, "random": 15000, "pytest": True, "exhaustive": True, "hard_timeout": 3000},
 }
 MIN = {"quick": {"C06.EpsilonNFA.to_regex": 3000}, "thorough": {"C06.EpsilonNFA.to_regex": 50000}}
